@@ -260,6 +260,7 @@ class Interp:
         #: transparently inline private helpers of the same object / module (rule paths)
         self.helpers = False
         self.loop_bound = LOOP_BOUND
+        self.budget = None
         self._helper_stack = []
         self._summaries = {}
         self._busy = set()
@@ -565,7 +566,7 @@ class Interp:
     # ------------------------------------------------------------- statements
     def _count(self):
         self._n += 1
-        if self._n > MAX_PATHS * 20:
+        if self._n > (self.budget or MAX_PATHS * 20):
             raise AnalysisError('path budget exceeded')
 
     def exec_block(self, stmts, st: St, fr: DynFrame):
@@ -707,11 +708,11 @@ class Interp:
             base = _dotted(target.value)
         self._emit(st, 'store', target, fr, path=path, base=base, value=value, aug=aug,
                    stmt=stmt, local=isinstance(target, ast.Name))
-        self._kill_store(st, target)
+        self._kill_store(st, target, fr)
         if isinstance(target, ast.Name) and aug is None and _is_fresh_empty(value):
             st.facts[('truth', target.id)] = False
 
-    def _kill_store(self, st: St, target):
+    def _kill_store(self, st: St, target, fr=None):
         path = _dotted(target)
         if isinstance(target, ast.Subscript):
             path = _dotted(target.value)
@@ -720,16 +721,62 @@ class Interp:
             for key in [k for k in st.facts if _fact_has_attr(k)]:
                 del st.facts[key]
             return
-        self._kill_path(st, path)
+        self._kill_path(st, path, fr)
 
     def _kill_name(self, st, name):
         self._kill_path(st, name)
 
-    def _kill_path(self, st: St, path: str):
+    def _truth_reads(self, recv: str):
+        """attributes of ``self`` that the truth value of an instance depends on
+        (None: unknown / everything)"""
+        key = ('truth-reads', recv)
+        if key in self._pure:
+            return self._pure[key]
+        self._pure[key] = None
+        method = self.p.find_method(recv, '__bool__') or self.p.find_method(recv, '__len__')
+        if method is None:
+            self._pure[key] = frozenset()
+            return self._pure[key]
+        reads, todo, seen = set(), [method], set()
+        known = True
+        while todo and known:
+            fn = todo.pop()
+            if fn.qn in seen:
+                continue
+            seen.add(fn.qn)
+            for node in ast.walk(fn.node):
+                if isinstance(node, ast.Attribute) and isinstance(node.value, ast.Name) and \
+                        node.value.id == 'self':
+                    reads.add(node.attr)
+                    other = self.p.find_method(recv, node.attr)
+                    if other is not None and other is not fn:
+                        todo.append(other)
+                elif isinstance(node, ast.Call) and isinstance(node.func, ast.Attribute) and \
+                        isinstance(node.func.value, ast.Call) and \
+                        isinstance(node.func.value.func, ast.Name) and \
+                        node.func.value.func.id == 'super':
+                    known = False
+            if len(seen) > 6:
+                known = False
+        self._pure[key] = frozenset(reads) if known else None
+        return self._pure[key]
+
+    def _kill_path(self, st: St, path: str, fr=None):
         dead = []
         for key in st.facts:
             for dep in _fact_deps(key):
-                if dep == path or dep.startswith(path + '.') or path.startswith(dep + '.'):
+                if dep == path or dep.startswith(path + '.'):
+                    dead.append(key)
+                    break
+                if path.startswith(dep + '.'):
+                    # a store to `obj.attr` and a fact about `obj` itself: the truth of
+                    # `self` changes only with the attributes its __bool__ reads
+                    if key[0] == 'truth' and dep == 'self' and fr is not None and \
+                            fr.frame.recv is not None and key[1] == 'self':
+                        reads = self._truth_reads(fr.frame.recv)
+                        attr = path[len(dep) + 1:].split('.')[0]
+                        if reads is not None and attr not in reads:
+                            continue
                     dead.append(key)
                     break
         for key in dead:
@@ -1457,15 +1504,23 @@ class Interp:
         if not self.helpers or fr.helper_depth >= self.HELPER_DEPTH:
             return False
         fn = callee.fn
-        if fn.kind not in ('sync', 'coroutine') or fn.is_property or fn.is_static or \
-                fn.is_classmethod:
+        if fn.kind not in ('sync', 'coroutine') or fn.is_property or fn.is_classmethod:
             return False
         name = fn.name
         if not name.startswith('_') or (name.startswith('__') and name.endswith('__')):
             return False
         if callee.key() in self._helper_stack:
             return False
-        if fn.cls is not None:
+        if fn.is_static:
+            # `self._helper(...)` / `Class._helper(...)` of the caller's own class
+            call = node.value if isinstance(node, ast.Await) else node
+            owner = self.p.enclosing_self_class(fr.fn)
+            if not (isinstance(call, ast.Call) and isinstance(call.func, ast.Attribute)
+                    and isinstance(call.func.value, ast.Name) and owner is not None
+                    and fn.cls is not None and self.p.is_subclass(owner.qn, fn.cls.qn)
+                    and call.func.value.id in ('self', fn.cls.name, owner.name)):
+                return False
+        elif fn.cls is not None:
             if not self._same_self(node, fr, callee):
                 return False
         else:
